@@ -139,6 +139,14 @@ def gen_cases(run, table):
                 cases.append((delta, [names[x] for x in g], "multi-all-within"))
                 cases.append((delta, [names[x] for x in g] + [names[g[0]] + 5 * delta], "multi-one-outside"))
                 cases.append((delta, [names[g[0]] + 5 * delta] + [names[x] for x in g], "multi-one-outside"))
+        # ten and more types in one file (type ids with two digits), in table order and shuffled
+        many = [e for e in ["H", "C", "N", "O", "F", "Si", "P", "S", "Cl", "Zn", "Zr", "Cu", "Br", "Ag"] if e in names]
+        if len(many) >= 12:
+            cases.append((delta, [names[x] for x in many], "multi-12-types"))
+            sh = list(many)
+            run.rng.shuffle(sh)
+            cases.append((delta, [names[x] for x in sh], "multi-12-types"))
+            cases.append((delta, [names[x] for x in sh[:11]] + [names[sh[11]] + 5 * delta], "multi-12-types-one-outside"))
         n = 40 if run.tier == "quick" else 400
         for _ in range(n):
             k = run.rng.randint(2, 6)
